@@ -11,6 +11,9 @@ def asm_models(src):
         t, info = lower.lower_direct_bits(text, arch)
         out.append(t)
         infos.append(info)
+        t, info = lower.lower_dispatch(text, arch)
+        out.append(t)
+        infos.append(info)
     return "\n\n".join(out), infos
 
 
